@@ -149,7 +149,7 @@ func c07OneRun(r *vk.Run, key, bl int, planA, planB []int, buf int, baseline *sy
 }
 
 type c07Stats struct {
-	mu                                             sync.Mutex
+	mu                                            sync.Mutex
 	runs, entries, windowsA, windowsB, challenges int64
 }
 
